@@ -8,7 +8,7 @@ BOUND = 'tables over the configured output columns (MTI, DE, PDS), 1..12 rows, n
 
 def table(rng, kind):
     rows = []
-    n = rng.randint(1, 12)
+    n = 300 if rng.random() < 0.12 else rng.randint(1, 12)       # some tables are several hundred rows (> 16 / 64 KiB of IPM data)
     for i in range(n):
         r = {'MTI': '%04d' % rng.randint(1000, 1999), 'DE2': ''.join(rng.choice('0123456789') for _ in range(rng.randint(12, 19)))}
         if kind == 'numeric':
